@@ -140,6 +140,7 @@ CONSTANTS
   CacheModes <- {cache}
   PruneModes <- {prune}
   StartAll = {startall}
+  WalkFeatures <- {features}
 INVARIANT Antichain
 INVARIANT NothingInvented
 INVARIANT WalkComplete
@@ -154,9 +155,9 @@ CHECK_DEADLOCK FALSE
 
 
 def walk_cfg(spec="Spec", keys="KWalk", vals="VWalk", maxlive=3, muts=1, cache="Both", prune="Both",
-             startall="FALSE"):
+             startall="FALSE", features="NoWalkFeatures"):
     return WALK_CFG.format(spec=spec, keys=keys, vals=vals, maxlive=maxlive, muts=muts, cache=cache,
-                           prune=prune, startall=startall)
+                           prune=prune, startall=startall, features=features)
 
 
 def c09(tier):
@@ -167,13 +168,18 @@ def c09(tier):
     R = "harness.fogwalk:replay_line"
     if tier == "quick":
         run_s2c(rep, "MC_FogWalk", walk_cfg(maxlive=3, muts=1), R)
-        run_s2c(rep, "MC_FogWalk", walk_cfg(keys="KWalk2", vals="VLongOnly", maxlive=4, muts=3, startall="TRUE"), R,
-                simulate=dict(num=36, depth=30))
+        run_s2c(rep, "MC_FogWalk", walk_cfg(keys="KWalk2", vals="VLongOnly", maxlive=4, muts=3, startall="TRUE",
+                                            features="AllWalkFeatures"), R, simulate=dict(num=36, depth=30))
+        # batches (committed / aborted) and rewrites between the rounds, pruning trie, two keys
+        run_s2c(rep, "MC_FogWalk", walk_cfg(keys="KWalkB", vals="VLongOnly", maxlive=2, muts=2, prune="OnlyT",
+                                            startall="TRUE", features="AllWalkFeatures"), R)
     else:
         run_s2c(rep, "MC_FogWalk", walk_cfg(maxlive=3, muts=2), R, timeout=3400)
         run_s2c(rep, "MC_FogWalk", walk_cfg(keys="KWalk2", vals="VLongOnly", maxlive=3, muts=1), R)
-        run_s2c(rep, "MC_FogWalk", walk_cfg(keys="KWalk2", vals="VWalk", maxlive=5, muts=4, startall="TRUE"), R,
-                simulate=dict(num=600, depth=40))
+        run_s2c(rep, "MC_FogWalk", walk_cfg(keys="KWalk2", vals="VWalk", maxlive=5, muts=4, startall="TRUE",
+                                            features="AllWalkFeatures"), R, simulate=dict(num=600, depth=40))
+        run_s2c(rep, "MC_FogWalk", walk_cfg(keys="KWalkB", vals="VLongOnly", maxlive=2, muts=3, startall="TRUE",
+                                            features="AllWalkFeatures"), R)
     need(rep, ["round-through-simulated-node", "stale-cache-entry-dropped", "round-via-frontier-cache",
                "mutation-during-walk", "walk-completed-within-behaviour"])
     return rep.finish()
